@@ -13,6 +13,9 @@ struct PathStep
 {
     int group;  // group index inside the current level
     u64 entry;  // entry index inside that group
+    // how the entry is obtained from a flat group: 0 g[i]; 1 *(begin()+i); 2 *(end()-(size-i));
+    // 3 back() (i must be the last); 4 front() (i must be 0); 5 i increments from begin(); 6 end()[-(size-i)]
+    int route = 0;
 };
 
 enum Target
